@@ -63,9 +63,12 @@ template<class T> struct ptr {
 	struct raw_t {};
 	ptr(raw_t /*tag*/, T* p, int blk) : p_{p}, blk_{blk} {}
 
+	// a pointer rebuilt from a raw address carries no provenance: pointer_to() is what a library falls back to when it has
+	// lost (or never used) the pointer it was given; inside the arenas that is recorded, outside (stack objects) it is legal
 	static auto pointer_to(T& r) -> ptr {
 		auto* a = const_cast<std::remove_cv_t<T>*>(std::addressof(r));
 		int   b = W.find_block(a);
+		if(b >= 0 || W.in_region(a)) W.violate("PTR-from-raw-address", "pointer_traits::pointer_to() used to rebuild a pointer into an arena from a raw address");
 		return ptr{raw_t{}, std::addressof(r), b >= 0 ? b : BLK_EXT};
 	}
 
@@ -149,5 +152,11 @@ template<class T> struct make_ptr<T*> {
 template<class T> struct make_ptr<ptr<T>> {
 	static auto make(T* q, int blk) -> ptr<T> { return ptr<T>{typename ptr<T>::raw_t{}, q, blk}; }
 };
+
+// the pointer type's own reinterpret cast (the customisation point reinterpret_array_cast() looks up by ADL, like
+// std::reinterpret_pointer_cast for shared_ptr): same address, same provenance, other pointee type
+template<class P2, class T> auto reinterpret_pointer_cast(ptr<T> const& p) -> P2 {
+	return P2{typename P2::raw_t{}, reinterpret_cast<typename P2::element_type*>(p.p_), p.blk_};  // NOLINT(cppcoreguidelines-pro-type-reinterpret-cast)
+}
 
 }  // namespace sim
